@@ -355,6 +355,18 @@ func walk(r *simkit.Run, prop string) {
 			if t.Chance("lower-case-keywords", 1, 3) {
 				tb.LowerKW = true
 			}
+			if t.Chance("bare-expression-index-parts", 1, 2) {
+				tb.BareExpr = true
+			}
+			for _, f := range tb.FKs {
+				p := legacy.Table(f.RefTable)
+				if f.RefTable == tb.Name {
+					p = tb
+				}
+				if p != nil && strings.Join(p.PK, ",") == strings.Join(f.RefCols, ",") && t.Chance("fk-without-column-list", 1, 3) {
+					f.ImplicitCols = true
+				}
+			}
 			legacy.Tables = append(legacy.Tables, tb)
 		}
 		if valid(legacy) == nil {
@@ -375,6 +387,22 @@ func walk(r *simkit.Run, prop string) {
 					if tb.LowerKW {
 						r.Probe("legacy-lower-case-keywords")
 						tb.LowerKW = false
+					}
+					for _, f := range tb.FKs {
+						if f.ImplicitCols {
+							r.Probe("legacy-fk-without-column-list")
+							f.ImplicitCols = false
+						}
+					}
+					if tb.BareExpr {
+						for _, ix := range tb.Idx {
+							for _, p := range ix.Parts {
+								if p.Expr != "" {
+									r.Probe("legacy-bare-expression-index-part")
+								}
+							}
+						}
+						tb.BareExpr = false
 					}
 					for _, ix := range tb.Idx {
 						if ix.Inline {
@@ -444,7 +472,8 @@ func walk(r *simkit.Run, prop string) {
 		}
 		cur := inspectRealm(ctx, drv0)
 		if cur == nil {
-			r.Fail(prop, "inspect", "inspect-failed", "step %d: InspectRealm failed on a state reached by the walk: %v", step, inspectErr(ctx, drv0))
+			ierr := inspectErr(ctx, drv0)
+			r.Fail(prop, "inspect", inspectSig(ierr), "step %d: InspectRealm failed on a state reached by the walk: %v", step, ierr)
 			return
 		}
 		want := desired.ToAtlas()
@@ -779,7 +808,8 @@ func checkConverged(ctx context.Context, r *simkit.Run, w *world, obs *sql.DB, d
 	drv, _ := sqlite.Open(w.db)
 	cur := inspectRealm(ctx, drv)
 	if cur == nil {
-		r.Fail(prop, "inspect", "inspect-failed", "step %d: InspectRealm failed after a successful apply: %v", step, inspectErr(ctx, drv))
+		ierr := inspectErr(ctx, drv)
+		r.Fail(prop, "inspect", inspectSig(ierr), "step %d: InspectRealm failed after a successful apply: %v", step, ierr)
 		return
 	}
 	want := desired.ToAtlas()
@@ -911,7 +941,7 @@ func checkExports(ctx context.Context, r *simkit.Run, w *world, dir string, step
 	drv, _ := sqlite.Open(w.db)
 	s1, err := drv.InspectSchema(ctx, "", nil)
 	if err != nil {
-		r.Fail(prop, "inspect", "inspect-failed", "step %d: InspectSchema failed: %v", step, err)
+		r.Fail(prop, "inspect", inspectSig(err), "step %d: InspectSchema failed: %v", step, err)
 		return
 	}
 	r.Probe("export-check/" + reached)
@@ -1216,7 +1246,7 @@ func checkCLIExports(ctx context.Context, r *simkit.Run, w *world, dir, url stri
 	drv, _ := sqlite.Open(w.db)
 	s1, err := drv.InspectSchema(ctx, "", nil)
 	if err != nil {
-		r.Fail(prop, "inspect", "inspect-failed", "step %d: InspectSchema failed: %v", step, err)
+		r.Fail(prop, "inspect", inspectSig(err), "step %d: InspectSchema failed: %v", step, err)
 		return
 	}
 	var s2 schema.Schema
@@ -1350,4 +1380,15 @@ func unifyConstraints(recreated, original map[string]string) (map[string]string,
 		outO[n], outR[n] = strings.Join(ol, "\n"), strings.Join(rl, "\n")
 	}
 	return outR, outO
+}
+
+// inspectSig names a failed inspection. One cause is a recorded finding and gets its own name: a
+// foreign key written without a column list (REFERENCES parent) whose parent table does not exist
+// (legal in SQLite, reached when a parent is dropped by a plan that then fails half way in
+// tx-mode none): there is no primary key to take the referenced columns from.
+func inspectSig(err error) string {
+	if err != nil && strings.Contains(err.Error(), "foreign-keys") && strings.Contains(err.Error(), "converting NULL to string") {
+		return "inspect-failed/fk-without-column-list-to-missing-table"
+	}
+	return "inspect-failed"
 }
